@@ -291,22 +291,70 @@ def rule_gf4_gf5(chk: Check):
                         f"the {table} table is a set and must be emitted through sorted()")
         vr = _find_method(mod, cls, "visit_Rule")
         chk.count("GF5-decorator-emission")
-        ok = False
-        if vr is not None:
-            top = [n for n in vr.body if isinstance(n, ast.If) and norm_stmt(n.test) == "node.left_recursive"]
-            if len(top) == 1:
-                inner = [n for n in top[0].body if isinstance(n, ast.If) and norm_stmt(n.test) == "node.leader"]
-                lead = inner and "'@memoize_left_rec'" in norm_stmt(inner[0].body[0]) and any("'@logger'" in norm_stmt(s) for s in inner[0].orelse)
-                rest = top[0].orelse
-                if cls == "XonshParserGenerator":
-                    memo = len(rest) == 1 and isinstance(rest[0], ast.If) and norm_stmt(rest[0].test) == "node.memo" and \
-                        "'@memoize'" in norm_stmt(rest[0].body[0]) and not rest[0].orelse
-                else:
-                    memo = len(rest) == 1 and "'@memoize'" in norm_stmt(rest[0])
-                ok = bool(lead) and memo
-        chk.require(ok, "GF5-decorator-emission", f"{rel}:{cls}.visit_Rule", f"{rel}:{vr.lineno if vr else 0}",
-                    "decorators must be emitted as: @memoize_left_rec for the leader of a left-recursive group, @logger for its other "
-                    "members, and @memoize " + ("only for (memo) rules" if cls == "XonshParserGenerator" else "for every other rule"))
+        if vr is None:
+            raise AnalysisError(f"{cls}.visit_Rule vanished")
+        # decided by evaluating the statements of visit_Rule that precede the emission of the `def` line over all combinations of
+        # (left_recursive, leader, memo): whatever the shape of the decision (if/elif chain, helper returning the text, table)
+        import types
+        from .c17 import Classes, EvalError, _mini_eval
+        C = Classes()
+        prefix = []
+        for st in vr.body:
+            if any(isinstance(c, ast.Call) and norm_stmt(c.func) == "self.print" and c.args and
+                   (norm_stmt(c.args[0]).lstrip("f").strip("'\"").startswith("def ")) for c in ast.walk(st)):
+                break
+            prefix.append(st)
+        fake_fn = ast.FunctionDef(name="prefix", args=vr.args, body=prefix or [ast.Pass()], decorator_list=[], returns=None, type_params=[])
+        ast.fix_missing_locations(fake_fn)
+        bad, und = [], ""
+        for lr in (False, True):
+            for leader in (False, True):
+                for memo in (False, True):
+                    printed: list = []
+
+                    class Me:
+                        cleanup_statements: list = []
+
+                        def print(self, *a):
+                            printed.append(" ".join(str(x) for x in a))
+
+                        def __getattr__(self, name):
+                            r = C.resolve(cls, name)
+                            if r is None:
+                                raise AttributeError(name)
+                            fn = r[2]
+                            static = any(norm_stmt(d) == "staticmethod" for d in fn.decorator_list)
+
+                            def call(*args):
+                                params = [a.arg for a in fn.args.args]
+                                env = dict(zip(params, args if static else (self,) + args))
+                                return _mini_eval(fn, env, allowed)
+                            return call
+                    node = types.SimpleNamespace(left_recursive=lr, leader=leader, memo=memo, name="r", type=None, nullable=False,
+                                                 is_loop=lambda: False, is_gather=lambda: False, flatten=lambda: None, rhs=None)
+                    allowed = {"print", "is_loop", "is_gather", "flatten", "endswith", "append"} | {m for m in C.methods(cls)}
+                    try:
+                        _mini_eval(fake_fn, {"self": Me(), "node": node}, allowed)
+                    except EvalError as e:
+                        und = str(e)
+                        break
+                    got = [x for x in printed if x.startswith("@")]
+                    if lr:
+                        want = ["@memoize_left_rec"] if leader else ["@logger"]
+                    elif cls == "XonshParserGenerator":
+                        want = ["@memoize"] if memo else []
+                    else:
+                        want = ["@memoize"]
+                    if got != want:
+                        bad.append(((lr, leader, memo), got))
+        key = f"{rel}:{cls}.visit_Rule"
+        if und:
+            chk.undecided("GF5-decorator-emission", key, f"{rel}:{vr.lineno}", f"decorator decision not evaluable: {und}")
+        else:
+            chk.require(not bad, "GF5-decorator-emission", key, f"{rel}:{vr.lineno}",
+                        "decorators must be emitted as: @memoize_left_rec for the leader of a left-recursive group, @logger for its other "
+                        "members, and @memoize " + ("only for (memo) rules" if cls == "XonshParserGenerator" else "for every other rule") +
+                        f"; for (left_recursive, leader, memo) = {bad[:2]}")
 
 
 def rule_gf6(chk: Check):
@@ -349,6 +397,11 @@ def rule_gf6(chk: Check):
         for k in keys:
             n_sites += 1
             chk.count("GF6-helper-identity")
+            if isinstance(k, ast.Name):
+                # a local bound once to the description (`key = repr(rhs)`)
+                defs = [a.value for a in ast.walk(fn) if isinstance(a, ast.Assign) and len(a.targets) == 1 and norm_stmt(a.targets[0]) == k.id]
+                if len(defs) == 1:
+                    k = ast.copy_location(defs[0], k)
             f = norm_stmt(k.func) if isinstance(k, ast.Call) else None
             ok = f in injective and injective[f]
             chk.require(ok, "GF6-helper-identity", f"{rel}:{cls}.artifical_rule_from_rhs:{norm_stmt(k)}", f"{rel}:{k.lineno}",
@@ -530,20 +583,31 @@ def rule_gf12_14(chk: Check):
     chk.count("GF14-items-through-visitor")
     if rh is None:
         raise AnalysisError("XonshCallMakerVisitor.rhs_helper vanished")
+    # methods of the call maker that themselves go through the visitor count as rendering
+    VIS = ("self.lookahead_call_helper(", "self.visit(", "self.generate_call(")
+    cmcls = next((c for c in gen.body if isinstance(c, ast.ClassDef) and c.name == "XonshCallMakerVisitor"), None)
+    via = set()
+    for m in (cmcls.body if cmcls is not None else []):
+        if isinstance(m, ast.FunctionDef) and m.name != "rhs_helper" and any(v in norm_stmt(m) for v in VIS):
+            via.add(f"self.{m.name}(")
+    marks = VIS + tuple(sorted(via))
     loops = [n for n in rh.body if isinstance(n, ast.For)]
-    ok = len(loops) == 1
-    if ok:
+    comps = [n.value for n in rh.body if isinstance(n, ast.Assign) and isinstance(n.value, (ast.ListComp, ast.GeneratorExp))]
+    ok = len(loops) == 1 or (not loops and len(comps) == 1)
+    if ok and loops:
         n_app = 0
         for pth in stmt_paths(loops[0].body, split_bool=True):
             rendered = False
             for x in pth:
                 text = x[1] if x[0] == "do" else ""
-                if "self.lookahead_call_helper(" in text or "self.visit(" in text or "self.generate_call(" in text:
+                if any(v in text for v in marks):
                     rendered = True
                 if ".append(" in text:
                     n_app += 1
                     ok = ok and rendered
         ok = ok and n_app >= 1
+    elif ok:
+        ok = any(v in norm_stmt(comps[0].elt) for v in marks)
     chk.require(ok, "GF14-items-through-visitor", "tasks/generator.py:XonshCallMakerVisitor.rhs_helper", f"tasks/generator.py:{rh.lineno}",
                 "every alternative of a collapsed `seq_alts(...)` group must be rendered by the visitor; text assembled around it skips the "
                 "visitor's bookkeeping (a string leaf that is a keyword is then missing from the regenerated KEYWORDS table)")
